@@ -95,7 +95,7 @@ PROPS = {
         assumptions=["per message: valid messages earlier in a stream have their legitimate effects",
                      "thread interleavings between the miner thread and the networking thread are not exhibited by the model"]),
     "C14": dict(
-        lean_core=["Props.C14"], lean_code=[], gen_funcs=[], harness="c14",
+        lean_core=["Props.GenTie.Params", "Props.C14"], lean_code=["Props.GenTie.SpendPlanRule"], gen_funcs=["create_spend"], harness="c14",
         assumptions=["ECDSA signatures are randomised: the model emits which key must sign which message, the harness verifies the implementation's signatures with python-ecdsa",
                      "partial: transactions above MAX_BLOCK_SIZE (about 1,979 inputs) are the known finding D7"]),
     "C15": dict(
